@@ -461,6 +461,11 @@ func runC16(r *hx.Run, replay string) {
 		}
 		if rr.Intn(4) == 0 {
 			cs.AlertNamed = hx.Pick(rr, names)
+			for _, m := range cs.Metrics { // prefer a metric the query uses and the server never had
+				if m.Class == "never" && strings.Contains(cs.Expr, m.Name) {
+					cs.AlertNamed = m.Name
+				}
+			}
 		}
 		if strings.Contains(cs.Expr, `alertname="`) {
 			cs.AlertRule = hx.Pick(rr, []string{"Bar", "Gone", "Other"})
